@@ -264,6 +264,11 @@ pub const ALPHABET: &[&str] = &[
 ];
 /// characters editors and file systems put at the very start / end of a file or between lines
 pub const SPECIAL_CHARS: &[&str] = &["\u{feff}", "\u{fffe}", "\u{200b}", "\u{2028}", "\u{2029}", "\u{0}", "\u{1a}", "\r", "\r\n", "\u{c}", "\u{b}", "\u{a0}", "\u{85}", "#!/usr/bin/env goml\n", "\u{1}", "\u{7f}", "\u{e000}", "\u{10ffff}"];
+/// pieces of multi-line string syntax (marker lines, continuation lines, lone backslashes, line ends)
+pub const ML_PARTS: &[&str] = &[
+    "\\\\", "\\\\ a", "\\\\\n", " \\\\ b\n", "\t\\\\c", "\n", "\r\n", "\r", "\"", "\\", " ", "x", "let s = ", ";",
+    "\\\\ \"q\" \\ \n", "  ", "\\\\\\", "//\n", "\u{e9}", "fn main() {", "}",
+];
 pub const SMALL_ALPHABET: &[&str] = &["1", "i", "8", ".", "f", "\"", "\\", "\n", "/", "a"];
 
 pub const TOKEN_POOL: &[&str] = &[
@@ -443,10 +448,7 @@ fn run(ctx: &mut Ctx) {
     }
     // C. multiline-string torture
     let ml = tier.pick(200, 5_000) / ctx.nshards as u64 + 1;
-    let ml_parts: &[&str] = &[
-        "\\\\", "\\\\ a", "\\\\\n", " \\\\ b\n", "\t\\\\c", "\n", "\r\n", "\r", "\"", "\\", " ", "x", "let s = ", ";",
-        "\\\\ \"q\" \\ \n", "  ", "\\\\\\", "//\n", "\u{e9}", "fn main() {", "}",
-    ];
+    let ml_parts: &[&str] = ML_PARTS;
     for i in 0..ml {
         let mut rng = Rng::keyed(seed, "c12-ml", ctx.shard as u64, i);
         let mut b = Vec::new();
